@@ -36,6 +36,7 @@ class SyncThread:
     """stand-in for threading.Thread inside simulators.acu"""
     events = []        # (subsystem id, command id, command bytes, outcome code, exception class)
     skip_ps = True     # do not execute the pointing handlers that read the wall clock / scipy
+    skip_all = False   # only intercept the handler arguments (C10 oracle)
 
     def __init__(self, group=None, target=None, name=None, args=(), kwargs=None, daemon=None):
         self.target = target
@@ -53,7 +54,7 @@ class SyncThread:
         cid = {'_mode_command': 1, '_parameter_command': 2,
                '_program_track_parameter_command': 4}.get(name, -1)
         cmd = self.args[0].encode('latin-1') if self.args and isinstance(self.args[0], str) else b''
-        if sub == 5 and SyncThread.skip_ps and (
+        if SyncThread.skip_all or sub == 5 and SyncThread.skip_ps and (
                 cid == 4 or (cid == 2 and len(cmd) >= 10 and cmd[8] in (50, 51) and cmd[9] == 0)):
             SyncThread.events.append((sub, cid, cmd, T_SKIPPED, ''))
             return
